@@ -2430,17 +2430,15 @@ func (s *Server) serveConnCounted(c net.Conn, countConcurrency bool) error {
 				br = acquireReader(ctx)
 			}
 
-			// If this is a keep-alive connection we want to try and read the first bytes
-			// within the idle time.
-			if connRequestNum > 1 {
-				var b []byte
-				b, err = br.Peek(1)
-				if len(b) == 0 {
-					// If reading from a keep-alive connection returns nothing it means
-					// the connection was closed (either timeout or from the other side).
-					if err != io.EOF {
-						err = ErrNothingRead{error: err}
-					}
+			// Wait for the first byte of the request before reporting StateActive
+			// (on keep-alive connections this read happens within the idle time).
+			var b []byte
+			b, err = br.Peek(1)
+			if len(b) == 0 {
+				// If reading from the connection returns nothing it means
+				// the connection was closed (either timeout or from the other side).
+				if err != io.EOF {
+					err = ErrNothingRead{error: err}
 				}
 			}
 		} else {
